@@ -896,6 +896,10 @@ func filterRemovetags(in *Value, param *Value) (*Value, *Error) {
 
 func filterRjust(in *Value, param *Value) (*Value, *Error) {
 	padding := param.Integer()
+	if padding < 0 {
+		// a negative width pads nothing (as a format width it would pad on the right)
+		padding = 0
+	}
 	if padding > maxCharPadding {
 		return nil, &Error{
 			Sender:    "filter:rjust",
